@@ -143,6 +143,8 @@ const DOMS: &[&str] = &["a.com", "b.com", "sub.a.com", "example.com", "foo.com",
 const SRC_HOSTS: &[&str] = &[
     "a.com", "sub.a.com", "x.sub.a.com", "b.com", "xa.com", "a.com.evil.org", "com", "a.com.", ".a.com", "www.example.com",
     "example.com", "foo.com", "x.net", "y.x.net", "a.co.uk", "b.a.co.uk", "localhost", "",
+    // deep initiators: a listed domain covers every depth of subdomain
+    "p.q.r.s.t.a.com", "k.l.m.n.sub.a.com", "v.w.x.y.z.x.net", "a1.b2.c3.d4.e5.f6.g7.example.com", "n1.n2.n3.n4.n5.a.co.uk", "a.b.c.d.foo.com",
 ];
 const RAW_TYPES: &[&str] = &[
     "beacon", "csp_report", "document", "main_frame", "font", "image", "imageset", "media", "object", "object_subrequest",
@@ -667,6 +669,27 @@ fn oracle_case(d: &Value, verbose: bool) -> Option<(Option<&'static str>, String
                 let class = if f3_class(&sh, scheme) && m && !expect { Some("F3_scheme_ws") } else { None };
                 Some((class, format!("rule {:?} on {} (type {:?}, third-party {}, source host {:?}): crate matches = {}, option semantics say {}", line, url, raw_type, third, source_host, m, expect)))
             } else {
+                // the same rule inside an engine, fresh and after a serialize / deserialize round trip
+                // (plain blocking and exception rules only: the other categories have their own verdict fields)
+                use adblock::filters::network::NetworkFilterMaskHelper;
+                let plain = !(f.is_csp() || f.is_redirect() || f.is_removeparam() || f.is_generic_hide() || f.is_important() || f.is_badfilter())
+                    && adblock::verif_hooks::filter_tag(f).is_none();
+                // (the list loader drops some lines the rule parser accepts, e.g. the 1-character rule `*`)
+                if plain && implrun::net::parse_net(&line).is_some() && req.is_supported && !(f3_class(&sh, scheme)) && !(source_host.is_empty() && f.opt_domains.is_some()) {
+                    let fresh = adblock::Engine::from_rules_parametrised([line.as_str()], Default::default(), true, false);
+                    let mut loaded = adblock::Engine::default();
+                    if let Ok(bytes) = fresh.serialize_raw() {
+                        if loaded.deserialize(&bytes).is_ok() {
+                            for (name, e) in [("fresh engine", &fresh), ("deserialized engine", &loaded)] {
+                                let res = e.check_network_request_subset(&req, false, true);
+                                let took_part = if f.is_exception() { res.exception.is_some() } else { res.filter.is_some() };
+                                if took_part != expect {
+                                    return Some((None, format!("{}: rule {:?} on {} (type {:?}, source host {:?}) takes part = {}, option semantics say {}", name, line, url, raw_type, source_host, took_part, expect)));
+                                }
+                            }
+                        }
+                    }
+                }
                 None
             }
         }
